@@ -7,6 +7,7 @@ pub mod meta;
 pub mod c02;
 pub mod c05;
 pub mod c07;
+pub mod c09;
 pub mod c10;
 pub mod c15;
 pub mod c16;
@@ -24,6 +25,7 @@ pub fn run(prop: &str, ctx: &Ctx) -> Option<Report> {
         "C13" => egprops::run_c13(ctx),
         "C05" => c05::run(ctx),
         "C07" => c07::run(ctx),
+        "C09" => c09::run(ctx),
         "C10" => c10::run(ctx),
         "C15" => c15::run(ctx),
         "C16" => c16::run(ctx),
